@@ -437,6 +437,11 @@ type calcCase struct {
 		St []string `json:"st"`
 	} `json:"tips,omitempty"`
 	Extra map[string]interface{} `json:"extra,omitempty"`
+	Cap     int     `json:"cap,omitempty"`
+	LoadNum int     `json:"loadnum,omitempty"`
+	LoadDen int     `json:"loadden,omitempty"`
+	NKeys   int     `json:"nkeys,omitempty"`
+	Ops     []idxOp `json:"ops,omitempty"`
 	K     *int                   `json:"k,omitempty"`
 }
 
